@@ -70,6 +70,8 @@ def getSrc (j : Json) : Except String (Src α) := do
   | "chain" => pure (.chain (← getList (getList c.get) (← field j "xss")))
   | "const" => pure (.const (← c.get (← field j "v")))
   | "obj" => pure (.obj (← getNat (← field j "j")))
+  | "mixed" => pure (.mixed (← getList c.get (← field j "pre")) (← getNat (← field j "j"))
+      (← getList c.get (← field j "post")))
   | _ => throw s!"bad source {k}"
 
 def getOp (j : Json) : Except String (Op α) := do
